@@ -46,6 +46,11 @@ func campaignCases(which string, env vk.Env) []vk.Case {
 			cs = append(cs, vk.Case{ID: fmt.Sprintf("%s/pos%d/part%d", p, pos, part), Run: func(t *vk.T) { runCampaign(t, which, p, 3, pos, env.Pick(6, 0), part, parts) }})
 		}
 	}
+	// state-level deviation: a polynomial with a root at the victim's identifier, the victim's share off by one
+	for pos := 0; pos < env.Pick(2, 8); pos++ {
+		pos := pos
+		cs = append(cs, vk.Case{ID: fmt.Sprintf("root-at-victim/cmp-keygen/pos%d", pos), Run: func(t *vk.T) { c03RootAtVictim(t, pos) }})
+	}
 	return cs
 }
 
